@@ -1174,4 +1174,84 @@ theorem fixed_point (f : Nat) (bs : Bytes) (hb : IsBytes bs) (enc : Bytes) (dc :
     ∃ dc', rtBox f enc = .ok enc dc' :=
   (fixed_point_gen f).1 bs enc dc hb hsz hm h hlen
 
+/-! ### `MoovBox.AddChild` only permutes: traks and non-traks each keep their relative order -/
+
+theorem lastTrak_gen (cs : List Kid) : ∀ i acc,
+    (lastTrakIdxFrom cs i acc = acc ∧ ∀ k ∈ cs, k.ty ≠ "trak") ∨
+    (i ≤ lastTrakIdxFrom cs i acc ∧ ∀ k ∈ cs.drop (lastTrakIdxFrom cs i acc + 1 - i), k.ty ≠ "trak") := by
+  induction cs with
+  | nil => intro i acc; left; simp [lastTrakIdxFrom]
+  | cons c cs ih =>
+    intro i acc
+    simp only [lastTrakIdxFrom]
+    by_cases hc : c.ty = "trak"
+    · simp only [hc, if_true]
+      rcases ih (i+1) i with ⟨h1, h2⟩ | ⟨h1, h2⟩
+      · right; rw [h1]; refine ⟨Nat.le_refl _, ?_⟩
+        have : i + 1 - i = 1 := by omega
+        rw [this]; simpa using h2
+      · right; refine ⟨by omega, ?_⟩
+        have : lastTrakIdxFrom cs (i+1) i + 1 - i = (lastTrakIdxFrom cs (i+1) i + 1 - (i+1)) + 1 := by omega
+        rw [this, List.drop_succ_cons]; exact h2
+    · simp only [hc, if_false]
+      rcases ih (i+1) acc with ⟨h1, h2⟩ | ⟨h1, h2⟩
+      · left; refine ⟨h1, ?_⟩
+        intro k hk
+        rcases List.mem_cons.1 hk with rfl | hk
+        · exact hc
+        · exact h2 k hk
+      · right; refine ⟨by omega, ?_⟩
+        have : lastTrakIdxFrom cs (i+1) acc + 1 - i = (lastTrakIdxFrom cs (i+1) acc + 1 - (i+1)) + 1 := by omega
+        rw [this, List.drop_succ_cons]; exact h2
+
+theorem lastTrak_drop (cs : List Kid) :
+    ∀ k ∈ cs.drop (lastTrakIdxFrom cs 0 0 + 1), k.ty ≠ "trak" := by
+  rcases lastTrak_gen cs 0 0 with ⟨_, h2⟩ | ⟨_, h2⟩
+  · intro k hk; exact h2 k (List.mem_of_mem_drop hk)
+  · simpa using h2
+
+theorem moovAddChild_trak (cs : List Kid) (c : Kid) :
+    (moovAddChild cs c).filter (fun k => k.ty == "trak") = cs.filter (fun k => k.ty == "trak") ++ [c].filter (fun k => k.ty == "trak") := by
+  unfold moovAddChild
+  by_cases hc : c.ty = "trak"
+  · simp only [hc, if_true]
+    split
+    · have hd : (cs.drop (lastTrakIdxFrom cs 0 0 + 1)).filter (fun k => k.ty == "trak") = [] := by
+        rw [List.filter_eq_nil_iff]
+        intro k hk; simpa using lastTrak_drop cs k hk
+      have hcs : cs.filter (fun k => k.ty == "trak") =
+          (cs.take (lastTrakIdxFrom cs 0 0 + 1)).filter (fun k => k.ty == "trak") ++
+          (cs.drop (lastTrakIdxFrom cs 0 0 + 1)).filter (fun k => k.ty == "trak") := by
+        rw [← List.filter_append, List.take_append_drop]
+      rw [hcs]
+      simp [List.filter_append, hd, hc]
+    · simp [List.filter_append]
+  · simp [hc, List.filter_append]
+
+theorem moovAddChild_other (cs : List Kid) (c : Kid) :
+    (moovAddChild cs c).filter (fun k => !(k.ty == "trak")) = cs.filter (fun k => !(k.ty == "trak")) ++ [c].filter (fun k => !(k.ty == "trak")) := by
+  unfold moovAddChild
+  by_cases hc : c.ty = "trak"
+  · simp only [hc, if_true]
+    split
+    · simp [List.filter_append, hc]
+      rw [← List.filter_append, List.take_append_drop]
+    · simp [List.filter_append]
+  · simp [hc, List.filter_append]
+
+theorem foldl_moov_filter (p : Kid → Bool)
+    (hp : ∀ cs c, (moovAddChild cs c).filter p = cs.filter p ++ [c].filter p) (kids : List Kid) :
+    ∀ acc, (kids.foldl moovAddChild acc).filter p = acc.filter p ++ kids.filter p := by
+  induction kids with
+  | nil => intro acc; simp
+  | cons c kids ih =>
+    intro acc
+    rw [List.foldl_cons, ih, hp, List.append_assoc, ← List.filter_append]; rfl
+
+theorem moov_order (kids : List Kid) :
+    (arrange "moov" kids).filter (fun k => k.ty == "trak") = kids.filter (fun k => k.ty == "trak") ∧
+    (arrange "moov" kids).filter (fun k => !(k.ty == "trak")) = kids.filter (fun k => !(k.ty == "trak")) := by
+  simp only [arrange, if_true]
+  exact ⟨by simpa using foldl_moov_filter _ moovAddChild_trak kids [],
+         by simpa using foldl_moov_filter _ moovAddChild_other kids []⟩
 end Mp4ff.TreeRT
